@@ -18,6 +18,8 @@ type gen struct {
 	r    *rand.Rand
 	out  *emitter
 	dist map[string]int
+	// smp profile: craft the degenerate SMP message 2 in the next deviant scenario
+	forceDegenerate bool
 }
 
 func (g *gen) bytesN(n int) []byte {
